@@ -20,11 +20,14 @@ def weight(c):
     c16 = ZeroExt(8, c)
     return If(is_digit(c), BitVecVal(0, 16),
               If(is_alpha(c), c16,
-                 If(c == BitVecVal(126, 8), BitVecVal(-1, 16),
+                 If(And(c == BitVecVal(126, 8), not CANARY), BitVecVal(-1, 16),
                     If(c == BitVecVal(0, 8), BitVecVal(0, 16), c16 + BitVecVal(256, 16)))))
 
 
 M1, Z0, P1 = BitVecVal(-1, 8), BitVecVal(0, 8), BitVecVal(1, 8)
+
+
+CANARY = False      # when set, '~' gets the weight of an ordinary punctuation character: a deliberately wrong oracle
 
 
 def dpkg_cmp(a, b):
